@@ -389,6 +389,64 @@ func stageLifecycleRules(c *core.Ctx, s *Stage, o lifecycleOpts) {
 				}
 			}
 		}
+		// a shortcut of the constructor ("nothing to do": no inputs, nothing to take) may close the channel itself and
+		// return without starting the goroutine that closes it otherwise: on every returning path of the constructor
+		// exactly one of the two happens
+		if len(closers) == 2 && (closers[0].g == nil) != (closers[1].g == nil) {
+			ctor, gor := closers[0], closers[1]
+			if ctor.g != nil {
+				ctor, gor = gor, ctor
+			}
+			top := gor.g
+			for top.Parent != nil {
+				top = top.Parent
+			}
+			good := top.Spawn != nil && top.Spawn.Instr != nil
+			for _, p := range ctor.an.AllPaths() {
+				if !good {
+					break
+				}
+				nClose := len(closesOn(p, k))
+				if p.Exit != ir.ExitReturn {
+					if nClose != 0 {
+						good = false // a close on the way round a loop of the constructor
+					}
+					continue
+				}
+				// the go statement lies on the way to this return (it dominates the returning block)
+				starts := false
+				for i := len(p.Steps) - 1; i >= 0; i-- {
+					if in := p.Steps[i].Instr; in != nil && in.Parent() == s.Fn && in.Block() != nil {
+						sb := top.Spawn.Instr.Block()
+						starts = sb == in.Block() || sb.Dominates(in.Block())
+						if sb == in.Block() {
+							// same block: the go statement must come first
+							starts = false
+							for _, x := range sb.Instrs {
+								if x == top.Spawn.Instr {
+									starts = true
+									break
+								}
+								if x == in {
+									break
+								}
+							}
+						}
+						break
+					}
+				}
+				switch {
+				case nClose == 1 && !starts && p.From == nil && len(sendsOn(p, k)) == 0:
+				case nClose == 0 && starts:
+				default:
+					good = false
+				}
+			}
+			if good {
+				c.Ok("single-closer", label+"#shortcut", ctor.fn.Pos(), "the constructor closes the channel itself exactly on the paths that do not start "+top.Name)
+				closers = []*proc{gor}
+			}
+		}
 		if len(closers) != 1 {
 			if len(closers) == 0 && !returned[k] {
 				// an internal channel nobody closes is not a leak by itself (nobody ranges over it) – but check it is not ranged over
@@ -435,7 +493,27 @@ func stageLifecycleRules(c *core.Ctx, s *Stage, o lifecycleOpts) {
 							}
 							break
 						}
+						if ld, isLd := r.(*ssa.UnOp); isLd && ld.Op == token.MUL {
+							// a load of the variable the channel is kept in (assigned once, with the made channel)
+							if al, isAl := ld.X.(*ssa.Alloc); isAl {
+								var only ssa.Value
+								n := 0
+								for _, r2 := range *al.Referrers() {
+									if st2, isSt := r2.(*ssa.Store); isSt && st2.Addr == ssa.Value(al) {
+										n++
+										only = st2.Val
+									}
+								}
+								if mc2, isMC := only.(*ssa.MakeChan); isMC && n == 1 {
+									r = mc2
+								}
+							}
+						}
 						if mc, isMC := r.(*ssa.MakeChan); isMC && ch.Src != ssa.Value(mc) {
+							continue
+						}
+						// handed out closed: a close of this very channel in the constructor dominates the return
+						if mc, isMC := r.(*ssa.MakeChan); isMC && ctorClosedBefore(mc, b) {
 							continue
 						}
 						if _, isCh := r.Type().Underlying().(*types.Chan); isCh {
@@ -1989,4 +2067,52 @@ func panicSources(c *core.Ctx, s *Stage, procs []*proc) {
 		}
 	}
 
+}
+
+
+// ctorClosedBefore: a call of the builtin close on the channel made by mc sits in a block of the same function that
+// dominates b (or in b itself).
+func ctorClosedBefore(mc *ssa.MakeChan, b *ssa.BasicBlock) bool {
+	var vals []ssa.Value
+	vals = append(vals, mc)
+	for _, r := range *mc.Referrers() {
+		switch x := r.(type) {
+		case *ssa.ChangeType:
+			vals = append(vals, x)
+		case *ssa.Store:
+			// kept in a variable a closure captures: the loads of that variable (it is assigned once)
+			if al, isAl := x.Addr.(*ssa.Alloc); isAl && x.Val == ssa.Value(mc) {
+				nStore := 0
+				for _, r2 := range *al.Referrers() {
+					if st2, isSt := r2.(*ssa.Store); isSt && st2.Addr == ssa.Value(al) {
+						nStore++
+					}
+				}
+				if nStore == 1 {
+					for _, r2 := range *al.Referrers() {
+						if ld, isLd := r2.(*ssa.UnOp); isLd && ld.Op == token.MUL {
+							vals = append(vals, ld)
+						}
+					}
+				}
+			}
+		}
+	}
+	for _, v := range vals {
+		if v.Referrers() == nil {
+			continue
+		}
+		for _, r := range *v.Referrers() {
+			call, ok := r.(*ssa.Call)
+			if !ok {
+				continue
+			}
+			if bi, isB := call.Call.Value.(*ssa.Builtin); isB && bi.Name() == "close" && call.Parent() == b.Parent() {
+				if call.Block() == b || call.Block().Dominates(b) {
+					return true
+				}
+			}
+		}
+	}
+	return false
 }
